@@ -225,7 +225,26 @@ def run(ctx):
     texts += [D.render(rng, D.document(rng)) for _ in range(ctx.n(2000, 30000))]
     texts += [G.unicode_text(rng, 40) for _ in range(ctx.n(1000, 20000))]
     texts += ['From foo\na: 1\n', 'a: 1\na: 2\na: 1\n', 'a: 1\n\nFrom x\nb: 2\n', 'a:1', 'A:b:c d\n', ':x\na: 1\n', ' c\na: 1\n']
+    def whole_signed(t):
+        return '-----BEGIN PGP SIGNED MESSAGE-----\nHash: SHA512\n\n' + t.rstrip('\n') + '\n-----BEGIN PGP SIGNATURE-----\nVersion: GnuPG v1\n\niQEzBAEBCgAdFiEE\n=abcd\n-----END PGP SIGNATURE-----\n'
+    signed_docs = [whole_signed(D.render(rng, D.document(rng))) for _ in range(ctx.n(300, 3000))]
+
+    def p_signed_paragraphs(t):
+        """get_paragraphs_data on a text inside an envelope: the envelope lines are words of the text like any others"""
+        try:
+            paras = list(debcon.get_paragraphs_data(t))
+        except Exception as e:  # noqa
+            return 'raises %s' % type(e).__name__
+        allv = {}
+        for d in paras:
+            for k, v in d.items():
+                allv[k] = allv.get(k, '') + ' ' + v
+        for w in t.split():
+            if not covered(w, allv):
+                return 'word %r of the input is lost by get_paragraphs_data: %r' % (w, paras)
+        return None
     fails = ctx.prop('prop:lossless', texts, p_lossless)
+    fails += ctx.prop('prop:lossless:inside-an-envelope', signed_docs, p_signed_paragraphs)
     # texts beyond 64 KiB, 1 MiB and 2 MiB that end in every way a file ends
     bigs = big_texts(rng, [70000, 70000, 70000, 300000, 300000, 1100000, 1100000, 1100000, 2200000, 2200000] + ([] if ctx.quick() else [5000000, 17000000, 17000000]))
     # one paragraph of thousands of fields; one field of thousands of continuation lines
